@@ -309,6 +309,14 @@ fn eval(a: &[String]) -> String {
             let hb = ((h as i64 + 1) / 2) % 12;
             let exp_stem = (2 * ((rolled % 10) % 5) + hb) % 10;
             let hp = t.get_sixty_cycle();
+            // year pillar: the civil year's from the Lichun INSTANT on
+            let st = SolarTime::from_ymd_hms(day.get_year(), day.get_month(), day.get_day(), h, 30, 0);
+            let lichun = SolarTerm::from_index(day.get_year(), 3).get_julian_day().get_solar_time();
+            let py = if st.is_before(lichun) { day.get_year() - 1 } else { day.get_year() };
+            if t.get_year().get_index() as isize != (py - 4).rem_euclid(60) {
+              out = format!("{}-{}-{} {}:30 year pillar {} (expected {})", day.get_year(), day.get_month(), day.get_day(), h, t.get_year().get_index(), (py - 4).rem_euclid(60));
+              break 'inst;
+            }
             if t.get_day().get_index() as i64 != rolled || hp.get_earth_branch().get_index() as i64 != hb || hp.get_heaven_stem().get_index() as i64 != exp_stem {
               out = format!("{}-{}-{} {}:30 day pillar {} (expected {}), hour pillar {} (expected stem {} branch {})", day.get_year(), day.get_month(), day.get_day(), h,
                             t.get_day().get_index(), rolled, hp.get_index(), exp_stem, hb);
@@ -417,6 +425,41 @@ fn eval(a: &[String]) -> String {
           }
         }
         day = day.next(1);
+      }
+      out
+    }
+    "subtract_scan" => {
+      // a.subtract(b) against n for a = b.next(n): pairs inside and across months, October 1582 included
+      let mut out = "NONE".to_string();
+      'scan: for (y, m, d) in [(1582isize, 10usize, 1usize), (1582, 10, 4), (1582, 9, 28), (2024, 2, 27), (1999, 12, 30), (1, 1, 1)] {
+        for (h, mi, s) in [(0usize, 0usize, 0usize), (6, 30, 15), (23, 59, 59)] {
+          let b = SolarTime::from_ymd_hms(y, m, d, h, mi, s);
+          for n in [1isize, 59, 3600, 86399, 86400, 86401, 4 * 86400, 11 * 86400 + 7, 40 * 86400] {
+            let a = b.next(n);
+            if a.subtract(b) != n || b.subtract(a) != -n {
+              out = format!("({}-{}-{} {}:{}:{}).next({}) is {} s later by subtract", y, m, d, h, mi, s, n, a.subtract(b));
+              break 'scan;
+            }
+          }
+        }
+      }
+      out
+    }
+    "lunar_next_scan" => {
+      // l.next(n) against the lunar date of the civil day n days later, on every day of 2020 and 2023 (both have a leap month)
+      let mut out = "NONE".to_string();
+      'scan: for y in [2020isize, 2023] {
+        let mut day = SolarDay::from_ymd(y, 1, 1);
+        for _ in 0..366 {
+          let l = day.get_lunar_day();
+          for n in [-31isize, -3, -1, 1, 2, 30] {
+            let got = std::panic::catch_unwind(std::panic::AssertUnwindSafe(|| { let r = l.next(n); (r.get_year(), r.get_month(), r.get_day()) }));
+            let e = day.next(n).get_lunar_day();
+            let exp = (e.get_year(), e.get_month(), e.get_day());
+            if got.is_err() || got.unwrap() != exp { out = format!("lunar date of {}-{}-{} stepped by {}", day.get_year(), day.get_month(), day.get_day(), n); break 'scan; }
+          }
+          day = day.next(1);
+        }
       }
       out
     }
